@@ -50,6 +50,19 @@ CORPUS = [
     ({"main": 'fn main() { let s = "{' + ", ".join('\\"%s\\": %d' % (k, n) for n, k in enumerate(
         ["\\\\u00e9", "e\\\\u0301", "a", "A", "\\\\u00c5", "A\\\\u030a", "\\\\u212b", "k1", "k2", "k3", "k1", "\\\\u1e69", "s\\\\u0323\\\\u0307", "s\\\\u0307\\\\u0323"])) +
         '}"; let o = s.parse_json() as { ? }; println(o.keys().len(), o.to_json()); println(o); for k in o.keys() { println(k.len(), o.get_type(k), o.get(k)); } }'}, "json-nfc-keys"),
+    # a refused cast of an object that lacks SEVERAL expected fields / has several surplus fields: which one the message names
+    ({"main": 'type Cfg = { host: str, port: int, retries: int, tls: bool, name: str, zone: ?int };\nfn chk(s: str) { try { let c = s.parse_json() as Cfg; println(c.host); } catch e { println(e.message); } '
+              'try { let c: Cfg = s.parse_json(); println(c.port); } catch e { println(e.message); } }\n'
+              'fn main() { chk("{}"); chk("{\\"host\\": \\"h\\"}"); chk("{\\"port\\": 1, \\"tls\\": true}"); chk("{\\"a\\": 1, \\"b\\": 2, \\"c\\": 3, \\"d\\": 4}"); '
+              'chk("{\\"host\\": 1, \\"port\\": \\"x\\", \\"retries\\": null, \\"tls\\": 0, \\"name\\": [], \\"zone\\": {}}"); }'}, "cast-several-missing"),
+    # the order in which the modules are compiled and initialised: the global initializers of two imported modules fail
+    # (which failure the host sees), function literals in several modules (their numbers show in the call stack of an
+    # uncaught throw)
+    ({"main": "import { x } from a;\nimport { y } from b;\nimport { z } from c;\nfn main() { println(x, y, z); }",
+      "a": "pub let x = 1 / 0;\nfn main() { }", "b": "pub let y = [1, 2][5];\nfn main() { }", "c": "pub let z = 1 << -1;\nfn main() { }"}, "init-order"),
+    ({"main": "import { fa } from a;\nimport { fb } from b;\nfn main() { let l = fn(n: int) -> int { n + 1 }; println(l(1), fa(1), fb(1)); let t = fn() { throw(\"deep\"); }; t(); }",
+      "a": "pub fn fa(n: int) -> int { let g = fn(k: int) -> int { k * 2 }; g(n) }\nfn main() { }",
+      "b": "pub fn fb(n: int) -> int { let g = fn(k: int) -> int { k * 3 }; let h = fn(k: int) -> int { k + 7 }; h(g(n)) }\nfn main() { }"}, "lambda-numbers"),
 ]
 
 KNOWN = {
